@@ -22,7 +22,7 @@ theorem decode_marshalled (k : Kind) (xs : List Cbor) (hwf : WF (.arr xs)) (hd :
         intro t ht; simp [tagContentOk]; omega
       apply this
       cases k <;> decide +kernel
-  have hdt : depth (.tag k.tagNum (.arr xs)) ≤ maxNesting := by simp only [depth] at hd ⊢; omega
+  have hdt : depth (.tag k.tagNum (.arr xs)) ≤ maxNesting := by simp only [depth, isTag, Bool.false_eq_true, if_false] at hd ⊢; omega
   have hda : depth (.arr xs) ≤ maxNesting := by omega
   have tagged := decodeAll_encode _ hwt hdt
   have plain := decodeAll_encode _ hwf hda
